@@ -8,6 +8,11 @@ TRUSTED_COMMON = [
 ]
 
 FAMILY_ASSUMPTIONS = {
+    "cpukinds": [
+        "the bitmap functions are replaced by the exact set operations on an 8-PU universe (/verif/include/cpukinds.model.h; one PU per Venn region of <= 3 disjoint kinds and one new set); the real implementations are verified for arbitrary widths under C03",
+        "bounded: at most 3 existing kinds, empty info lists; allocation failure of hwloc_bitmap_alloc is not modelled (cpukinds.c does not check it)",
+        "not decided: info accumulation, ranking / efficiencies, restrict / dup / XML interleavings",
+    ],
     "shmem": [
         "hwloc__topology_dup is replaced by its allocation contract (a ghost sequence of 3 block requests, the same in the length pass and the write pass: dup is assumed deterministic on an unchanged topology)",
         "system calls (lseek, read, write, ftruncate, mmap, munmap, sysconf) are nondeterministic stubs; a successful mmap at the requested address is a 16 KiB object",
@@ -113,8 +118,11 @@ def write(here, prop, tier, seed, jobs, results, violations, known_hits, undecid
     if bounded:
         assumptions.append("bounded stand-ins (NOT counted under obligations/discharged): " +
                            ", ".join("%s[%s]" % (b["job"], b["note"] or ("unwind %s" % b["unwind"])) for b in bounded))
+    all_bounded = bool(bounded) and not functions
+    if all_bounded:      # a property decided only by bounded stand-ins is never reported at proof level
+        proof_obl = sum(b["obligations"] for b in bounded); proof_dis = sum(b["discharged"] for b in bounded)
     ev = {
-        "property_id": prop, "tier": tier, "seed": seed, "level": "proof",
+        "property_id": prop, "tier": tier, "seed": seed, "level": "other" if all_bounded else "proof",
         "coverage": {
             "obligations": proof_obl, "discharged": proof_dis,
             "checker_cmd": (cmds[0] if cmds else "cbmc") + "   (one of %d runs; each preceded by goto-cc on the real /repo source and goto-instrument --dfcc --enforce-contract <fn> --apply-loop-contracts)" % len(jobs),
@@ -128,7 +136,7 @@ def write(here, prop, tier, seed, jobs, results, violations, known_hits, undecid
             "repo_head": repo_head(),
             "undecided": [{"job": n, "status": s, "why": w} for n, s, w in undecided],
             "known_findings_hit": [kf.get("id", "") for kf, _ in known_hits],
-            "explanation": "Every obligation is generated by cbmc/goto-instrument from /repo's current sources "
+            "explanation": ("BOUNDED STAND-IN ONLY (no unbounded proof for this property): " if all_bounded else "") + "Every obligation is generated by cbmc/goto-instrument from /repo's current sources "
                            "(driver TU #includes the real .c file; contracts attached by re-declaration, loop contracts through "
                            "HWLOC_VERIF_LOOP anchors). Counts are read from cbmc's JSON result list of this run.",
         },
